@@ -15,6 +15,9 @@ from mdsa.cfg import walk_local
 from mdsa.loader import AnalysisError
 
 from . import c02
+from mdsa import match as MM
+
+from .sem import F
 from .common import Ctx, fs_sinks, local_defs, node_of, slice_roots
 
 O = "ih5.overlay"
@@ -69,77 +72,109 @@ def r1_value_guard(P, rep, ctx):
                           path=g.path_text(g.find_path(node, avoid=guards)))
     if n < 3:
         raise AnalysisError(f"C17.R1: only {n} user-value stores found in overlay.py")
-    gv = P.func(f"{O}.IH5Node._guard_value")
-    g = ctx.cfg(gv)
-    tests = [t for t in g.nodes if t.kind == "test" and norm(t.exprs[0]) == f"_is_del_mark({gv.params[1]})"]
-    ok = bool(tests) and all(g.exit not in g.reach([b for b, l in g.succ[t.idx] if l == "T"]) for t in tests) and g.every_path_passes([t.idx for t in tests], g.exit)
-    rep.check(ok, "C17.R1", gv.qual, "_guard_value raises for the deletion marker", gv.loc(), construct="_guard_value", message="_guard_value does not reject the deletion-marker value loudly")
-    si = P.func(f"{O}.IH5Group.__setitem__")
-    rep.check("return self.create_dataset(path, data=value)" in norm(si.node), "C17.R1", si.qual, "group item assignment goes through the guarded create_dataset", si.loc(), construct="IH5Group.__setitem__", message="IH5Group.__setitem__ bypasses create_dataset")
+    gvfi = P.func(f"{O}.IH5Node._guard_value")
+    gv = F(ctx, gvfi)
+    marker = gv.tests(f"_is_del_mark({gvfi.params[1]})")
+    rep.check(gv.refuses(marker) and gv.hit_before(gv.g.exit, nodes=gv.test_nodes(marker)), "C17.R1", gvfi.qual, "_guard_value raises for the deletion marker", gvfi.loc(), construct="_guard_value", message="_guard_value does not reject the deletion-marker value loudly")
+    sifi = P.func(f"{O}.IH5Group.__setitem__")
+    si = F(ctx, sifi)
+    rets = [si.x(v) for _, v in si.returns() if v is not None] + [si.x(c) for i, c, b in si.call_sites("self.create_dataset(___)")]
+    rep.check(bool(rets) and set(rets) == {f"self.create_dataset({sifi.params[1]}, data={sifi.params[2]})"}, "C17.R1", sifi.qual, "group item assignment goes through the guarded create_dataset", sifi.loc(), construct="IH5Group.__setitem__", message="IH5Group.__setitem__ bypasses create_dataset")
 
 
 def r2_bytes_untransformed(P, rep, ctx):
     U = "packer.utils"
     w = P.func(f"{U}._h5_wrap_bytes")
-    rets = [x.value for x in walk_local(w.node) if isinstance(x, ast.Return)]
+    wf = F(ctx, w)
     p = w.params[0]
-    ok = False
-    why = ""
-    if len(rets) == 1 and isinstance(rets[0], ast.IfExp):
-        r = rets[0]
-        t = norm(r.test)
-        pos = t in (f"len({p})", p, f"len({p}) > 0", f"len({p}) != 0")
-        neg = t in (f"not {p}", f"len({p}) == 0", f"not len({p})")
-        a, b = (r.body, r.orelse) if pos else (r.orelse, r.body)
-        ok = (pos or neg) and norm(a) in (f"numpy.void({p})", f"np.void({p})") and norm(b) in ("h5py.Empty('b')",)
-        why = f"test `{t}`, results {norm(r.body)} / {norm(r.orelse)}"
-    elif len(rets) == 1:
-        why = norm(rets[0])
-    truthy_val = any(isinstance(x, ast.BoolOp) and any("void(" in norm(v) for v in x.values) for x in walk_local(w.node))
-    rep.check(ok and not truthy_val, "C17.R2", w.qual, "bytes are wrapped opaquely: numpy.void(bs) for non-empty, h5py.Empty('b') for empty, decided by len(bs)", w.loc(), construct=f"_h5_wrap_bytes: {why}",
-              message=f"_h5_wrap_bytes is not the two-case function decided by the length of the bytes ({why}): e.g. truthiness of numpy.void is False for all-NUL content, which would then be stored as empty")
-    pf = P.func(f"{U}.pack_file")
-    defs = local_defs(pf)
-    dd = [norm(v) for k, v in defs.get("data", []) if v is not None]
-    rep.check(dd == ["_h5_wrap_bytes(file_path.read_bytes())"], "C17.R2", pf.qual, "payload = _h5_wrap_bytes(file_path.read_bytes()), nothing in between", pf.loc(), construct=f"data = {dd}", message=f"the embedded payload is computed as {dd}: bytes are transformed before wrapping")
-    cd = [c for c in local_calls(pf.node) if call_attr(c) == "create_dataset"]
-    ok = len(cd) == 1 and norm(kwarg(cd[0], "data") or ast.Constant(value=None)) == "data" and norm(cd[0].args[0]) == "target"
-    rep.check(ok, "C17.R2", pf.qual, "the wrapped bytes are stored as the dataset at the target path", pf.loc(), construct="create_dataset in pack_file", message="pack_file does not store `data` with node.create_dataset(target, data=data)")
-    fp = [norm(v) for k, v in defs.get("file_path", []) if v is not None]
-    rep.check(fp == ["Path(file_path)"], "C17.R2", pf.qual, "the file read is the one the caller named", pf.loc(), construct=f"file_path = {fp}", message=f"file_path is rebound to {fp}")
+    ok = True
+    why = []
+    VOID = (f"numpy.void({p})", f"np.void({p})")
+    rets = [(i, v) for i, v in wf.returns() if v is not None]
+    nonempty_pats = [f"len({p})", p]
+    # evaluate the result for both cases (non-empty / empty), whether written as a conditional expression or as branches
+    for nonempty, wants in ((True, VOID), (False, ("h5py.Empty('b')",))):
+        blocked = []
+        te = wf.tests(f"len({p})", p)
+        blocked = wf.neg(te) if nonempty else te
+        reach = wf.g.reach_consistent([wf.g.entry], labels_block=blocked)
+        vals = set()
+        for i, v in rets:
+            if i not in reach:
+                continue
+            e = wf.xe_at(i, v)
+            while isinstance(e, ast.IfExp):
+                a, neg = MM.polarity(e.test)
+                t = norm(a)
+                if t in (f"len({p})", p):
+                    e = e.body if (nonempty != neg) else e.orelse
+                else:
+                    break
+            vals.add(norm(e))
+        why.append(f"{'non-empty' if nonempty else 'empty'} -> {sorted(vals)}")
+        ok = ok and bool(vals) and vals <= set(wants)
+    truthy_val = any(isinstance(x, ast.BoolOp) and any("void(" in norm(v) for v in x.values) for x in walk_local(w.node)) or any(MM.polarity(t.exprs[0])[0] is not None and "void(" in norm(t.exprs[0]) for t in wf.g.nodes if t.kind == "test")
+    truthy_bytes = bool(wf.tests(p)) and not bool(wf.tests(f"len({p})"))
+    rep.check(ok and not truthy_val, "C17.R2", w.qual, "bytes are wrapped opaquely: numpy.void(bs) for non-empty, h5py.Empty('b') for empty, decided by len(bs)", w.loc(), construct="_h5_wrap_bytes cases",
+              message=f"_h5_wrap_bytes is not the two-case function decided by the length of the bytes ({'; '.join(why)}): e.g. truthiness of numpy.void is False for all-NUL content, which would then be stored as empty")
+    pffi = P.func(f"{U}.pack_file")
+    pf = F(ctx, pffi)
+    nd, fp, tg = pffi.params[0], pffi.params[1], pffi.params[2]
+    cds = pf.call_sites(f"{nd}.create_dataset(__t, data=__d)")
+    dd = sorted({pf.x_at(i, b["__d"]) for i, c, b in cds})
+    rep.check(dd == [f"_h5_wrap_bytes({fp}.read_bytes())"], "C17.R2", pffi.qual, "payload = _h5_wrap_bytes(file_path.read_bytes()), nothing in between", pffi.loc(), construct=f"data = {dd}", message=f"the embedded payload is computed as {dd}: bytes are transformed before wrapping")
+    allcd = [c for c in local_calls(pffi.node) if call_attr(c) == "create_dataset"]
+    ok = len(allcd) == 1 and bool(cds) and all(norm(b["__t"]) == tg for i, c, b in cds)
+    rep.check(ok, "C17.R2", pffi.qual, "the wrapped bytes are stored as the dataset at the target path", pffi.loc(), construct="create_dataset in pack_file", message="pack_file does not store `data` with node.create_dataset(target, data=data)")
+    fpd = [norm(v) for k, v in local_defs(pffi).get(fp, []) if v is not None]
+    rep.check(fpd in ([f"Path({fp})"], []), "C17.R2", pffi.qual, "the file read is the one the caller named", pffi.loc(), construct=f"file_path = {fpd}", message=f"file_path is rebound to {fpd}")
     h = P.func(f"{O}.h5_copy_from_to")
-    srcs = [norm(x) for f_ in [h] + list(h.nested.values()) for x in walk_local(f_.node) if isinstance(x, ast.Subscript) and norm(x.value) in ("source_node", "src_child") and isinstance(x.ctx, ast.Load)]
-    rep.check(sorted(srcs) == ["source_node[()]", "src_child[()]"], "C17.R2", h.qual, "copies transfer dataset values with the full selection [()]", h.loc(), construct=f"value reads {srcs}", message=f"h5_copy_from_to reads dataset values as {srcs} (must be [()] in both branches)")
-    cip = P.func(f"{O}.IH5Dataset.copy_into_patch")
-    rep.check("self._files[-1][self._gpath] = self[()]" in norm(cip.node), "C17.R2", cip.qual, "copy_into_patch transfers the full value", cip.loc(), construct="copy_into_patch", message="copy_into_patch does not copy self[()]")
+    srcs = []
+    for f_ in [h] + list(h.nested.values()):
+        names = set(f_.params) | {n.id for x in walk_local(f_.node) if isinstance(x, ast.For) for n in ast.walk(x.target) if isinstance(n, ast.Name)}
+        for x in walk_local(f_.node):
+            if isinstance(x, ast.Subscript) and isinstance(x.ctx, ast.Load) and isinstance(x.value, ast.Name) and x.value.id in names and ("src" in x.value.id or "source" in x.value.id):
+                srcs.append(norm(x.slice))
+    rep.check(len(srcs) >= 2 and set(srcs) == {"()"}, "C17.R2", h.qual, "copies transfer dataset values with the full selection [()]", h.loc(), construct="value reads of the copy", message=f"h5_copy_from_to reads dataset values with {srcs} (must be [()] in both branches)")
+    cipfi = P.func(f"{O}.IH5Dataset.copy_into_patch")
+    cip = F(ctx, cipfi)
+    st = [(i, v) for p_ in ("self._files[-1][self._gpath]", "self._files[self._last_idx][self._gpath]") for i, v, b in cip.stores(p_)]
+    rep.check(bool(st) and all(cip.x(v) == "self[()]" for i, v in st), "C17.R2", cipfi.qual, "copy_into_patch transfers the full value", cipfi.loc(), construct="copy_into_patch", message="copy_into_patch does not copy self[()]")
 
 
 def r3_harvested_facts(P, rep, ctx):
     fi = P.func("harvester.common.FileMetaHarvester.run")
-    defs = local_defs(fi)
-    pd = [norm(v) for k, v in defs.get("path", []) if v is not None]
-    rep.check(pd == ["self.args.filepath"], "C17.R3", fi.qual, "harvested file is the harvester's filepath argument", fi.loc(), construct=f"path = {pd}", message=f"harvester reads {pd}")
-    sz = [norm(v) for k, v in defs.get("sz", []) if v is not None]
-    hs = [norm(v) for k, v in defs.get("hs", []) if v is not None]
-    rep.check(sz == ["path.stat().st_size"], "C17.R3", fi.qual, "size is the file's st_size", fi.loc(), construct=f"sz = {sz}", message=f"contentSize is computed as {sz}")
-    rep.check(hs == ["hashsum(open(path, 'rb'), 'sha256')"], "C17.R3", fi.qual, "hash is SHA-256 over the file's bytes, read on this call", fi.loc(), construct=f"hs = {hs}", message=f"sha256 is computed as {hs}: not the digest of the file as it is now (e.g. memoised per path/size)")
-    rets = [x.value for x in walk_local(fi.node) if isinstance(x, ast.Return)]
-    ok = len(rets) == 1 and isinstance(rets[0], ast.Call) and {k.arg: norm(k.value) for k in rets[0].keywords}.items() >= {"contentSize": "sz", "sha256": "hs", "filename": "path.name"}.items()
-    rep.check(ok, "C17.R3", fi.qual, "harvested values are returned as contentSize / sha256 / filename", fi.loc(), construct="harvester result", message="harvester result does not carry contentSize=sz, sha256=hs, filename=path.name")
-    for f in [x for x in P.functions.values() if x.module.name in ("harvester.common", "util.hashsums", "packer.utils")]:
-        decos = [norm(d.func) if isinstance(d, ast.Call) else norm(d) for d in getattr(f.node, "decorator_list", [])]
+    f = F(ctx, fi)
+    PATH = "self.args.filepath"
+    rets = [(i, v) for i, v in f.returns() if v is not None]
+    ok = len(rets) >= 1
+    got = {}
+    for i, v in rets:
+        x = f.xe_at(i, v)
+        if isinstance(x, ast.Call):
+            got = {k.arg: norm(k.value) for k in x.keywords}
+    rep.check(got.get("filename") == f"{PATH}.name", "C17.R3", fi.qual, "harvested file is the harvester's filepath argument", fi.loc(), construct="harvested path", message=f"harvester reads {got.get('filename')}")
+    rep.check(got.get("contentSize") == f"{PATH}.stat().st_size", "C17.R3", fi.qual, "size is the file's st_size", fi.loc(), construct="contentSize source", message=f"contentSize is computed as {got.get('contentSize')}")
+    rep.check(got.get("sha256") == f"hashsum(open({PATH}, 'rb'), 'sha256')", "C17.R3", fi.qual, "hash is SHA-256 over the file's bytes, read on this call", fi.loc(), construct="sha256 source", message=f"sha256 is computed as {got.get('sha256')}: not the digest of the file as it is now (e.g. memoised per path/size)")
+    rep.check(ok and {"contentSize", "sha256", "filename"} <= set(got), "C17.R3", fi.qual, "harvested values are returned as contentSize / sha256 / filename", fi.loc(), construct="harvester result", message="harvester result does not carry contentSize=sz, sha256=hs, filename=path.name")
+    for fn in [x for x in P.functions.values() if x.module.name in ("harvester.common", "util.hashsums", "packer.utils")]:
+        decos = [norm(d.func) if isinstance(d, ast.Call) else norm(d) for d in getattr(fn.node, "decorator_list", [])]
         memo = [d for d in decos if d.split(".")[-1] in MEMO]
-        reads_file = any(call_attr(c) in ("open", "read_bytes", "hashsum", "file_hashsum", "stat") for c in local_calls(f.node))
+        reads_file = any(call_attr(c) in ("open", "read_bytes", "hashsum", "file_hashsum", "stat") for c in local_calls(fn.node))
         if reads_file or memo:
-            rep.check(not memo, "C17.R3", f.qual, "file-reading helper is not memoised", f.loc(), construct=f"decorators {decos}", message=f"{f.qual} is memoised ({memo}): facts about a file rewritten in place come from the cache, not from the file")
-    pf = P.func("packer.utils.pack_file")
-    g = ctx.cfg(pf)
-    cd = [n.idx for n in g.nodes if any(call_attr(c) == "create_dataset" for c in g.calls(n.idx))]
-    att = [n.idx for n in g.nodes if n.kind == "stmt" and isinstance(n.stmt, ast.Assign) and any(norm(t).startswith("ret.meta[") for t in n.stmt.targets)]
-    rep.check(bool(cd) and bool(att) and all(g.every_path_passes(cd, a) for a in att) and g.every_path_passes(att, g.exit), "C17.R3", pf.qual, "metadata is attached to the new dataset on every successful path", pf.loc(), construct="metadata attach after create_dataset", message="pack_file can return without attaching the file metadata (or attaches it before the dataset exists)")
-    tests = [t for t in g.nodes if t.kind == "test" and norm(t.exprs[0]) == "not isinstance(metadata, FileMeta)"]
-    ok = bool(tests) and all(g.exit not in g.reach([b for b, l in g.succ[t.idx] if l == "T"]) for t in tests) and all(g.every_path_passes([t.idx for t in tests], c) for c in cd)
-    rep.check(ok, "C17.R3", pf.qual, "metadata that is not file metadata is refused before anything is stored", pf.loc(), construct="FileMeta refusal", message="pack_file does not refuse non-FileMeta metadata before creating the dataset")
-    hv = [c for c in local_calls(pf.node) if norm(c.func) == "harvest"]
-    ok = len(hv) == 1 and "hv_file(filepath=file_path)" in norm(hv[0]) and norm(hv[0].args[0]) == "FileMeta"
-    rep.check(ok, "C17.R3", pf.qual, "default metadata is harvested from the same file that is embedded", pf.loc(), construct="harvest call", message="default metadata is not harvested from file_path with the core.file harvester")
+            rep.check(not memo, "C17.R3", fn.qual, "file-reading helper is not memoised", fn.loc(), construct=f"decorators {decos}", message=f"{fn.qual} is memoised ({memo}): facts about a file rewritten in place come from the cache, not from the file")
+    pffi = P.func("packer.utils.pack_file")
+    pf = F(ctx, pffi)
+    g = pf.g
+    nd, fp, md = pffi.params[0], pffi.params[1], pffi.params[3]
+    cd = pf.calls(f"{nd}.create_dataset(___)")
+    atts = [(i, v, b) for i, v, b in pf.stores("__r.meta[__k]")]
+    d_ = local_defs(pffi)
+    att = [i for i, v, b in atts if pf.x_at(i, b["__r"]).startswith(f"{nd}.create_dataset(") or (isinstance(b["__r"], ast.Name) and any(v_ is not None and norm(v_).startswith(f"{nd}.create_dataset(") for k_, v_ in d_.get(b["__r"].id, [])))]
+    rep.check(bool(cd) and bool(att) and pf.all_hit_before(att, nodes=cd) and pf.hit_before(g.exit, nodes=att), "C17.R3", pffi.qual, "metadata is attached to the new dataset on every successful path", pffi.loc(), construct="metadata attach after create_dataset", message="pack_file can return without attaching the file metadata (or attaches it before the dataset exists)")
+    notfm = pf.tests(f"not isinstance({md}, FileMeta)")
+    ok = pf.refuses(notfm) and pf.all_hit_before(cd, nodes=pf.test_nodes(notfm))
+    rep.check(ok, "C17.R3", pffi.qual, "metadata that is not file metadata is refused before anything is stored", pffi.loc(), construct="FileMeta refusal", message="pack_file does not refuse non-FileMeta metadata before creating the dataset")
+    hv = pf.call_sites("harvest(FileMeta, __l)")
+    ok = len({norm(c) for i, c, b in hv}) == 1 and all(isinstance(pf.xe_at(i, b["__l"]), ast.List) and len(pf.xe_at(i, b["__l"]).elts) == 1 and MM.match(f"__h(filepath={fp})", pf.xe_at(i, b["__l"]).elts[0]) is not None for i, c, b in hv)
+    rep.check(ok, "C17.R3", pffi.qual, "default metadata is harvested from the same file that is embedded", pffi.loc(), construct="harvest call", message="default metadata is not harvested from file_path with the core.file harvester")
